@@ -139,7 +139,7 @@ namespace plan
     else if (name == "epin")
       op.a = {static_cast<long>(r.below(3)), static_cast<long>(r.below(4)), static_cast<long>(r.below(42)), static_cast<long>(r.below(4))};
     else if (name == "ublock")
-      op.a = {static_cast<long>(r.below(4)), r.range(-5, 6), static_cast<long>(r.below(7)), static_cast<long>(r.below(5)), static_cast<long>(r.below(4)), static_cast<long>(r.below(3)), static_cast<long>(r.below(2))};
+      op.a = {static_cast<long>(r.below(20)), r.range(-5, 6), static_cast<long>(r.below(7)), static_cast<long>(r.below(5)), static_cast<long>(r.below(4)), static_cast<long>(r.below(3)), static_cast<long>(r.below(2))};
     else if (name == "blockade")
       op.a = {static_cast<long>(r.below(4)), static_cast<long>(r.below(4))};
     else if (name == "touch")
